@@ -1730,6 +1730,10 @@ static void nm_class_slot(int idx, var K, const char* nm, var* ibuf, int has_m1)
   struct ucls* u = &U[idx];
   u->obj = K; u->name = nm; u->nmem = 2; u->slot = -1;
   u->off[0] = offsetof(struct RtC, m0); u->off[1] = offsetof(struct RtC, m1); u->mname[0] = "m0"; u->mname[1] = "m1";
+  /* called like a class of Cello.h (the type asked is that class object, e.g. Help): instances declared under this name are
+     that class's structs, so the member offsets asked for are that class's */
+  int b = find_class(nm);
+  if (b >= 0 && b < NBC) { u->nmem = U[b].nmem; for (int j = 0; j < U[b].nmem; j++) { u->off[j] = U[b].off[j]; u->mname[j] = U[b].mname[j]; } }
   struct RtC* body = header_init(ibuf, K, AllocStatic);
   body->m0 = rt_m0; body->m1 = has_m1 ? rt_m1 : NULL;
   u->inst[0] = u->inst[1] = body;
@@ -1766,6 +1770,9 @@ static int nm_run(struct nmtut* n, const char* fmt, ...) {
   return 1;
 }
 
+static int nm_mi(int c, int want) { return want < U[c].nmem ? want : U[c].nmem - 1; }
+static void nm_push(int c, int ep, int mi) { push_op(c, ep, nm_mi(c, mi)); }
+
 static const char* nm_kindname(struct nmtut* n) { return n->kind == 0 ? (n->t.T == Terminal ? "static-type:Terminal" : "static-type") : n->kind == 1 ? "static-user-type" : "runtime-type"; }
 
 /* after a sweep: the name and the size the type was made with are still what the API reports */
@@ -1796,10 +1803,10 @@ static void nm_tut(struct nmtut* n) {
     /* cell */
     for (int ep = 0; ep < NEP; ep++) {
       if (ep == EP_TYPEOF_T) continue;
-      for (int mi = 0; mi < (ep_has_member(ep) ? 2 : 1); mi++) {
+      for (int mi = 0; mi < (ep_has_member(ep) ? U[c].nmem : 1); mi++) {
         HN = 0; push_op(c, ep, mi); push_op(c, ep, mi);
         nm_run(n, "cls=%d:%s f=cell ep=%d m=%d again=same", qi, U[c].name, ep, mi);
-        HN = 0; push_op(c, ep, mi); push_op(c, (ep + 1) % 8, 1 - mi);
+        HN = 0; push_op(c, ep, mi); nm_push(c, (ep + 1) % 8, mi ? 0 : 1);
         nm_run(n, "cls=%d:%s f=cell ep=%d m=%d again=next", qi, U[c].name, ep, mi);
       }
     }
@@ -1811,8 +1818,8 @@ static void nm_tut(struct nmtut* n) {
         if (x < 0) continue;
         for (int ord = 0; ord < 2; ord++) {
           HN = 0;
-          if (!ord) { push_op(c, ep1, 0); push_op(x, ep2, U[x].nmem - 1); push_op(c, ep2, 1); push_op(x, ep1, 0); }
-          else      { push_op(x, ep1, U[x].nmem - 1); push_op(c, ep2, 1); push_op(x, ep2, 0); push_op(c, ep1, 0); }
+          if (!ord) { push_op(c, ep1, 0); push_op(x, ep2, U[x].nmem - 1); nm_push(c, ep2, 1); push_op(x, ep1, 0); }
+          else      { push_op(x, ep1, U[x].nmem - 1); nm_push(c, ep2, 1); push_op(x, ep2, 0); push_op(c, ep1, 0); }
           nm_run(n, "cls=%d:%s f=mix x=%s ep1=%d ep2=%d ord=%d", qi, U[c].name, U[x].name, ep1, ep2, ord);
         }
       }
@@ -1821,16 +1828,16 @@ static void nm_tut(struct nmtut* n) {
     for (int q2 = 0; q2 < nq; q2++) for (int ep1 = 0; ep1 < 8; ep1++) for (int k2 = 0; k2 < (nm_full ? 8 : 1); k2++) {
       int ep2 = nm_full ? k2 : (ep1 + 3 + q2) % 8;
       int c2 = Q[q2];
-      HN = 0; push_op(c, ep1, 0); push_op(c2, ep2, 1); push_op(c, ep2, 1); push_op(c2, ep1, 0);
+      HN = 0; push_op(c, ep1, 0); nm_push(c2, ep2, 1); nm_push(c, ep2, 1); push_op(c2, ep1, 0);
       nm_run(n, "cls=%d:%s f=two c2=%d:%s ep1=%d ep2=%d", qi, U[c].name, q2, U[c2].name, ep1, ep2);
     }
   }
   /* sweep */
   for (int ep0 = 0; ep0 < 8; ep0++) for (int dir = 0; dir < 2; dir++) {
     HN = 0;
-    for (int i = 0; i < nq; i++) push_op(Q[dir ? nq - 1 - i : i], (ep0 + i) % 8, i & 1);
+    for (int i = 0; i < nq; i++) nm_push(Q[dir ? nq - 1 - i : i], (ep0 + i) % 8, i & 1);
     for (int c = 0; c < NBC; c++) { push_op(c, EP_TINST, -1); push_op(c, EP_IMPL, -1); }
-    for (int i = 0; i < nq; i++) { push_op(Q[i], EP_TINST, -1); push_op(Q[i], EP_METH, 0); push_op(Q[i], EP_TIMPLM, 1); }
+    for (int i = 0; i < nq; i++) { push_op(Q[i], EP_TINST, -1); push_op(Q[i], EP_METH, 0); nm_push(Q[i], EP_TIMPLM, 1); }
     if (nm_run(n, "f=sweep ep0=%d dir=%d", ep0, dir)) nm_api_after(n);
   }
 }
